@@ -1223,6 +1223,10 @@ func NewSelector(pos *Position, expr Expression, ident string) *Selector {
 
 // String returns the string representation of n.
 func (n *Selector) String() string {
+	if lit, ok := n.Expr.(*BasicLiteral); ok && lit.Type != StringLiteral && lit.Type != RuneLiteral {
+		// "1.a" would be read as the floating-point literal "1." followed by "a".
+		return "(" + lit.String() + ")." + n.Ident
+	}
 	return n.Expr.String() + "." + n.Ident
 }
 
@@ -1312,9 +1316,11 @@ func (n *Slicing) String() string {
 	if n.High != nil {
 		s += n.High.String()
 	}
-	if n.Max != nil {
+	if n.Max != nil || n.IsFull {
 		s += ":"
-		s += n.Max.String()
+		if n.Max != nil {
+			s += n.Max.String()
+		}
 	}
 	s += "]"
 	return s
